@@ -907,6 +907,14 @@ class Interp:
                             return
                     except cmodel.CTypeError as ex_:
                         raise EvalRaise("TypeError", str(ex_))
+                if o.cls is not None and getattr(self.sc, "real_objects", False):
+                    # whole objects: a property with a setter is set through its setter (the first class of the MRO that defines one)
+                    for k_ in self.repo.mro(o.cls):
+                        if name in k_.setters:
+                            self.call_function(k_.module, k_.setters[name], [v], {}, self_obj=o)
+                            return
+                        if name in k_.methods or name in k_.attrs:
+                            break
                 if o.cls is not None:
                     name = self.repo.property_alias(o.cls, name) or name
                 o.fields[name] = v
